@@ -11,11 +11,15 @@
    same out-of-fuel".  `core_program` (Model/Values.v) fixes what is quantified over: number
    literals, the 37 core elements, variables and function definitions at top level (not inside
    a def, where Python would create a local), if / for / while, the lambdas λ ƛ ' µ and the
-   shorthands ⁽ ‡ ≬, named functions with numeric and named parameters, list literals, the
+   shorthands ⁽ ‡ ≬, named functions with numeric, named and `*` parameters, list literals, the
    modifiers v & ~ ß ƒ ɖ ₌ ₍; a nested def does not read a named parameter of an enclosing
    function (Python would use a closure cell).  NOT in the core (no statement is made): string
    / character / compressed literals, the ghost variable and `_` names, X x (break / recurse),
-   `*` function parameters, assignments inside a def, triadic modifiers. *)
+   assignments inside a def, triadic modifiers.  Dynamically outside both models (outcome
+   XErr EStuck, never compared): a function value used as an if condition / for iterable
+   (Structures.md: called first; implementation: taken as true / TypeError -- known finding
+   C01-function-valued-condition), function values in arithmetic or printers, lazily applied
+   bodies with side effects. *)
 From Coq Require Import List NArith ZArith Bool.
 From Vy Require Import Model.Base Model.Lexer Model.Parser Model.Transpile Model.Values Model.Machine Model.RefSem
   Proofs.C01Frames Proofs.C01Sim Proofs.C01Templates Proofs.C01Examples.
